@@ -277,3 +277,97 @@ impl TransportReaderSeam {
         self.handle.take_tx().into_iter().map(|x| x.1).collect()
     }
 }
+
+// ---------------------------------------------------------------------------------------
+// application parser / display / measurement extraction
+// ---------------------------------------------------------------------------------------
+
+use crate::app::parse::options::ParseOptions;
+use crate::app::parse::parser::{ObjectHeader, ParsedFragment};
+
+#[derive(Clone, Debug, PartialEq, Eq, Hash)]
+pub struct HdrOut {
+    pub group: u8,
+    pub var: u8,
+    pub qual: u8,
+    /// the header formatted with object values, exactly as the decode log prints it
+    pub text: String,
+}
+
+#[derive(Clone, Debug, PartialEq, Eq, Hash)]
+pub struct AppParse {
+    pub ctrl: u8,
+    pub func: u8,
+    pub iin: Option<(u8, u8)>,
+    /// the validating first pass followed by a lazy iteration
+    pub objects: Result<Vec<HdrOut>, String>,
+    /// a second lazy iteration yields exactly the same
+    pub second_pass_equal: bool,
+    /// to_request / to_response validation
+    pub as_request: Result<(), String>,
+    pub as_response: Result<(), String>,
+    /// number of bytes of the full fragment display at every decode level
+    pub display_len: [usize; 4],
+}
+
+struct HeaderText<'a, 'b>(&'b ObjectHeader<'a>);
+
+impl std::fmt::Display for HeaderText<'_, '_> {
+    fn fmt(&self, f: &mut std::fmt::Formatter) -> std::fmt::Result {
+        self.0.format(true, f)
+    }
+}
+
+fn collect_headers(frag: &ParsedFragment) -> Result<Vec<HdrOut>, String> {
+    match frag.objects {
+        Err(e) => Err(format!("{e:?}")),
+        Ok(hc) => Ok(hc
+            .iter()
+            .map(|h| {
+                let (group, var) = h.variation.to_group_and_var();
+                HdrOut { group, var, qual: h.details.qualifier().as_u8(), text: format!("{}", HeaderText(&h)) }
+            })
+            .collect()),
+    }
+}
+
+/// Parse a fragment with the library's parser; `Err` = the 2..4 byte fragment header was rejected
+pub fn app_parse(bytes: &[u8], zero_length_strings: bool) -> Result<AppParse, String> {
+    let options = ParseOptions { parse_zero_length_strings: zero_length_strings };
+    let frag = ParsedFragment::parse(options, bytes).map_err(|e| format!("{e:?}"))?;
+    let c = frag.control;
+    let ctrl = ((c.fir as u8) << 7) | ((c.fin as u8) << 6) | ((c.con as u8) << 5) | ((c.uns as u8) << 4) | c.seq.value();
+    let objects = collect_headers(&frag);
+    let second = collect_headers(&frag);
+    let levels = [
+        crate::decode::AppDecodeLevel::Nothing,
+        crate::decode::AppDecodeLevel::Header,
+        crate::decode::AppDecodeLevel::ObjectHeaders,
+        crate::decode::AppDecodeLevel::ObjectValues,
+    ];
+    let mut display_len = [0usize; 4];
+    for (i, l) in levels.iter().enumerate() {
+        display_len[i] = format!("{}", frag.display(*l)).len();
+    }
+    Ok(AppParse {
+        ctrl,
+        func: frag.function.as_u8(),
+        iin: frag.iin.map(|i| (i.iin1.value, i.iin2.value)),
+        second_pass_equal: objects == second,
+        objects,
+        as_request: frag.to_request().map(|_| ()).map_err(|e| format!("{e:?}")),
+        as_response: frag.to_response().map(|_| ()).map_err(|e| format!("{e:?}")),
+        display_len,
+    })
+}
+
+/// run `extract_measurements_inner` over a response fragment into the given handler;
+/// returns false if the fragment is not a parseable response
+pub fn app_extract(bytes: &[u8], handler: &mut dyn crate::master::ReadHandler) -> bool {
+    let options = ParseOptions { parse_zero_length_strings: true };
+    let Ok(frag) = ParsedFragment::parse(options, bytes) else { return false };
+    let Ok(resp) = frag.to_response() else { return false };
+    let Ok(objects) = resp.objects else { return false };
+    crate::master::extract::extract_measurements_inner(objects, handler);
+    true
+}
